@@ -486,6 +486,26 @@ def search(ctx):
                     out.append({"key": key, "what": r[1], "kind": "c16-probe", **H.case_json(plain, hist),
                                 "probe": [[pk.hex(), w_] for pk, w_ in probe]})
                 break
+        # one definition of the PGN excluded (or the only one included) BY ID: messages of that definition in the history,
+        # then a message of a SIBLING definition — what a filtered-out message leaves behind must not decide the sibling's fate
+        by_def = {}
+        for q in some:
+            d_ = C8._spec_select(g, q)
+            by_def.setdefault(d_["Id"], q)
+        ids = sorted(by_def)
+        if len(ids) >= 2 and "C16:filtered-sibling" not in seen:
+            a_id, b_id = rng.sample(ids, 2)
+            for cfg2 in ({**plain, "ex": [a_id]}, {**plain, "ex": [H.rand_case_str(rng, a_id)]}, {**plain, "inc": [b_id, 127250]}):
+                hist2 = frames(by_def[a_id], 1) + frames(by_def[a_id], 2)
+                probe = frames(by_def[b_id], 5)
+                r = c16_probe_oracle(cfg2, hist2, probe)
+                if r:
+                    seen.add("C16:filtered-sibling")
+                    out.append({"key": "C16:filtered-sibling", "kind": "c16-probe", **H.case_json(cfg2, hist2),
+                                "probe": [[pk.hex(), w_] for pk, w_ in probe],
+                                "what": r[1] + f" [filter ex={cfg2['ex']} inc={cfg2['inc']}: the history holds messages of {a_id}, "
+                                               f"the probe is {b_id} of the same PGN]"})
+                    break
     # truncated fast-packet frames as garbage (first frame announcing a length but carrying 0..2 data bytes,
     # continuation frames carrying the counter byte only, in every order), then a complete message with ANOTHER
     # sequence counter on the same stream
@@ -504,6 +524,9 @@ def search(ctx):
                     first, cont = (0, e0), (fc, e1)
                     shapes += [[first, cont], [cont, first], [first, cont, cont], [cont, cont]]
         shapes += [[(0, 0)], [(1, 0)], [(0, 0), (0, 1)]]
+        # joining the bus in the middle of a message: stray continuation frames of full size and NO first frame — nothing is
+        # known about that message, so the next complete one may carry any counter, the very same one included
+        shapes += [[(1, 7)], [(2, 7), (3, 7)], [(1, 7), (1, 7)], [(3, 2)]]
         for trial in range(len(shapes) + ctx.n(6, 40)):
             gs = rng.randrange(8)
             garbage = []
@@ -513,8 +536,10 @@ def search(ctx):
                 body = bytes([(gs << 5) | fc]) + (bytes([rng.choice([9, 20, 30])]) if fc == 0 else b"") + \
                     bytes(rng.getrandbits(8) for _ in range(extra))
                 garbage.append((H.mk_pkt(pgn, 5, dst, 3, body, len(body)), False))
+            same_ok = all(fc != 0 for fc, _ in spec)          # no first frame seen: the probe may reuse the counter
+            pc = gs if (same_ok and trial % 2 == 0) else (gs + 1 + rng.randrange(7)) % 8
             probe = [(H.mk_pkt(pgn, 5, dst, 3, (f + bytes([0xFF] * 8))[:8], 8), False)
-                     for f in H.fast_frames(payload, (gs + 1 + rng.randrange(7)) % 8)]
+                     for f in H.fast_frames(payload, pc)]
             r = c16_probe_oracle(plain, garbage, probe)
             if r:
                 key = f"C16:{r[0]}-probe-depends-on-history"
